@@ -654,6 +654,22 @@ func genBuildCase(r *Rng) (*buildCase, []string) {
 		tags = append(tags, t...)
 	}
 	n := r.Pick([]int{0, 0, 1, 1, 2, 2, 3, 4})
+	if c.in != nil && r.Chance(1, 4) {
+		// what a server or a client really does: the packet built from is a client's
+		// DISCOVER / REQUEST / INFORM / DECLINE / RELEASE or a server's OFFER / ACK,
+		// relayed or not, broadcast bit set or clear, and the first modifier names the
+		// type of the answer (seeded change C15-16: the broadcast bit forced on a NAK
+		// to a relayed REQUEST, after the caller's modifiers)
+		c.in.Options[53] = []byte{byte(r.Pick([]int{1, 3, 3, 3, 8, 4, 7, 2, 5}))}
+		c.in.Flags = uint16(r.Pick([]int{0, 0, 0x8000}))
+		if r.Bool() {
+			c.in.GatewayIPAddr = net.IP{10, 9, byte(r.Intn(256)), 1}
+		} else {
+			c.in.GatewayIPAddr = net.IPv4zero.To4()
+		}
+		c.toks = append(c.toks, fmt.Sprintf("mt/%d", r.Pick([]int{2, 5, 6, 6, 3, 7})))
+		tags = append(tags, "scenario=answer-to-a-client-message")
+	}
 	for i := 0; i < n; i++ {
 		tok := genMod(r, r.Intn(nModKinds))
 		if c.in != nil && r.Chance(1, 3) {
